@@ -53,28 +53,32 @@ CLAIMED.update({
             "integer-ness and value of the head and of element 1) and z3 checks every return path against the protocol table: tag, arity guard, "
             "field order, Generic fallback, rejection of bad heads and negative unlink ids, no index out of bounds.",
             E1T + "; MIR->SMT for from_term with native replay"),
-    "C09": ("E1 kani-cbmc", "9.3 C09", "FragmentAssembler on sequences of 1..3 one-byte fragments with symbolic bytes and sequence ids, every arrival permutation, "
-            "duplicates, out-of-range ids, early continuations and two interleaved sequences: nothing until the last missing fragment, then the "
-            "original bytes in the peer's order, completed sequences removed.", E1T),
+    "C09": ("E2 mir-smt (stateful)", "9.3 C09", "Symbolic execution of the MIR of FragmentAssembler::{start_fragment, add_fragment, pending_count} and everything they call in "
+            "fragmentation.rs (FragmentedMessage::*, FragmentCount::*, the closures) by a stateful MIR interpreter with models of Vec/HashMap/Option "
+            "(mir_smt/heapex.py): scripts of header/continuation calls on one or two sequences of 1..3 fragments with symbolic continuation ids "
+            "(any u64: duplicates, 0, out of range), symbolic sequence ids and payload identities; on every feasible path z3 decides, after each "
+            "call, Some/None against a reference model's completion point, the delivered chunk order against cache++p(N)..p(1), and at the end "
+            "pending_count <= live sequences; panics are violations. Counterexamples are replayed on the real FragmentAssembler.",
+            "MIR->SMT symbolic execution (stateful interpreter, std containers modelled) + z3 per path; native replay of every counterexample"),
     "C10": ("E1 kani-cbmc", "9.3 C10", "Chain: decoding LOCAL_EXT keeps exactly the bytes after the tag on the identifier; encoding an identifier with preserved bytes "
-            "replays them byte-for-byte, also after clone / borrowed round trip / inside a tuple (all fields and hash bytes symbolic).", E1T),
+            "replays them byte-for-byte, also after clone / borrowed round trip / inside a tuple (all fields and hash bytes symbolic); ==, cmp, "
+            "partial_cmp and the hash transcript of ExternalPid/Port/Reference depend on the logical fields only (plain vs node-local, both "
+            "hashes symbolic); clone and the owned->zero-copy->owned conversion keep the preserved bytes (field level). E2: the identifier arms of "
+            "BorrowedTerm::to_owned and From<&OwnedTerm> are executed from the MIR and must carry the input identifier record itself (a "
+            "rebuilt identifier has lost its bytes) - this covers the Reference variant, on which no CBMC conversion/encode harness finishes.",
+            E1T + "; MIR-level arm check for the conversions with native replay"),
     "C13": ("E1 kani-cbmc", "9.3 C13", "decode_borrowed vs decode on the reference encodings of the C01 shapes and on every proper prefix (symbolic cut): acceptance "
             "agrees, to_owned() has the same variant and denotes the same value, error offsets lie within the input.", E1T),
     "C15": ("E1 kani-cbmc", "9.3 C15", "from_term(to_term(v)) == v for all values of i8..i64, u8..u64, f32, f64, bool, char, (), Option<i64>, (i64,u8); wire trip: "
             "reference bytes of the value's width class -> real decoder -> real deserializer must give the value back.", E1T),
 })
-for _k in ("C09", "C13"):      # built, but no harness beyond the trivial one finishes: not claimed (see NA)
+for _k in ("C13",):      # built, but no harness finishes: not claimed (see NA)
     CLAIMED.pop(_k, None)
 NA = {
     "C06": "the receive dispatch is inlined in `async fn Connection::receive_message` over FramedTransport::read (tokio net + timer): any harness "
            "from which it is reachable makes Kani's compiler fail (runtime-context thread-local -> catch_unwind), and an async stub of the "
            "transport cannot be constructed outside tokio; the synchronous components it calls are covered by C02 (fragment headers), C09 "
            "(assembler) and C01/C03 (terms), but exactly-once/in-order delivery across calls is not decidable with this technique here",
-    "C09": "FragmentAssembler keeps sequences in a HashMap<SequenceId, FragmentedMessage>; hashbrown's probe loops over heap-stored control bytes "
-           "(which CBMC treats as symbolic) did not finish for any harness with more than one fragment (900 s, 5 GB each; bounded probe loops "
-           "did not help). The harnesses are kept in harness/src/c09.rs; only the single-fragment case is decided, which is not a claim. The "
-           "reversed concatenation order of reassemble() (ascending fragment id, the protocol counts down) was seen by reading and is pinned by "
-           "the repository's own tests, but is not decided by a check",
     "C13": "decode_borrowed (parse_*_borrowed with the ParsingContext path bookkeeping) exhausts memory under CBMC even alone on a 3-byte input "
            "(all 40 harnesses killed at >6 GB), so neither the two-decoder comparison nor the chain through the reference finishes",
     "C14": "the distribution-header writer keys HashSet<&Atom>/HashMap<&Atom,u8> by atoms (SipHash over symbolic strings, iteration order) and the "
@@ -86,6 +90,9 @@ NA = {
     "C18": "process lifecycle is tokio::spawn tasks, mpsc mailboxes and RwLock tables, Node::start needs EPMD; runtime scheduling property",
     "C19": "receiver loop is a closure in tokio::spawn on a concrete OwnedReadHalf with wall-clock timeouts; not encodable",
 }
+import subprocess
+HOOK_COMMITS = [l.split()[0] for l in subprocess.run(["git", "-C", "/repo", "log", "--format=%h %s"], stdout=subprocess.PIPE, text=True).stdout.splitlines()
+                if l.split(" ", 1)[1].startswith("hooks")]
 PENDING = {}   # filled below for properties whose checks are not (yet) registered
 
 
@@ -95,7 +102,7 @@ def main():
     claimed = dict(CLAIMED)
     claimed.update({k: tuple(v) for k, v in extra.get("claimed", {}).items()})
     # only properties whose timings are calibrated (i.e. whose check has been run to completion here) are registered
-    claimed = {k: v for k, v in claimed.items() if k == "C16" or os.path.exists(os.path.join(V, "driver", "timings", k + ".json"))}
+    claimed = {k: v for k, v in claimed.items() if k in ("C16", "C09") or os.path.exists(os.path.join(V, "driver", "timings", k + ".json"))}
     na = dict(NA)
     na.update(extra.get("not_applicable", {}))
     checks = []
@@ -124,13 +131,15 @@ def main():
         "version": 1,
         "setup_cmd": "./setup.sh",
         "hooks": {"guard": "--cfg edp_rs_verif", "enable": "RUSTFLAGS='--cfg edp_rs_verif' (set by the driver for the harness crate build)",
-                  "baseline_off_cmd": "python3 /verif/tools/baseline.py", "source_commits": [], "add_only": True},
+                  "baseline_off_cmd": "python3 /verif/tools/baseline.py", "source_commits": HOOK_COMMITS, "add_only": True},
         "engines": [
             {"name": "E1 kani-cbmc", "path": "/verif/driver/e1.py", "serves_properties": sorted(k for k, v in claimed.items() if v[0].startswith("E1")),
              "kind_free_text": "Kani 0.68 compiler over a harness crate with path dependencies on /repo/crates/*; kani-driver's goto-cc/"
                                "goto-instrument steps replicated plus goto-level transformations T1-T4; CBMC 6.11 + CaDiCaL decides each harness"},
             {"name": "E2 mir-smt", "path": "/verif/mir_smt", "serves_properties": sorted(k for k, v in claimed.items() if v[0].startswith("E2")),
-             "kind_free_text": "nightly rustc -Zunpretty=mir of the real crate, symbolic execution of scalar MIR to SMT-LIB2, z3 (cvc5 cross-check)"},
+             "kind_free_text": "nightly rustc -Zunpretty=mir of the real crate; symex.py: loop-free scalar MIR -> visible-action tree -> SMT-LIB2 (z3, cvc5 "
+                               "cross-check); heapex.py: stateful MIR interpreter with container models, one z3 process per script, choice points "
+                               "decided by the solver; every counterexample replayed natively"},
         ],
         "checks": checks,
         "not_applicable": nal,
